@@ -226,7 +226,8 @@ def finish(ctx, level, explanation, trusted_base, assumptions, t0, extra=None):
         'n_functions_analysed': len(ctx.functions),
         'sites_matched_per_rule': ctx.sites,
         'rules': sorted(set(o.rule for o in uniq)),
-        'inlining_bound': 3,
+        'interprocedural': 'path rules are intra-procedural (closures analysed as own bodies); reachability / may-call / lock-class rules use the whole crate call graph',
+        'path_bound': 'every CFG block visited at most 2 times per path (3 where a rule says so); all such paths of the anchored functions are enumerated',
         'fact_file': os.path.basename(ctx.facts_path),
         'fact_src_hash': ctx.facts.meta.get('src_hash', ''),
         'bodies_in_fact_file': len(ctx.facts.bodies),
